@@ -100,8 +100,13 @@ class Git:
         return int(result.stdout.strip())
 
     def rev_parse(self, commit_symbol: str) -> Optional[str]:
+        """
+        Returns the hash of the commit that `commit_symbol` refers to (or `None`
+        if there is no such commit).
+        """
         result = subprocess.run(
-            ["git", "rev-parse", commit_symbol],
+            # An annotated tag has its own hash; we want the commit it points to.
+            ["git", "rev-parse", "--verify", commit_symbol + "^{commit}"],
             cwd=self._project_root,
             capture_output=True,
             text=True,
